@@ -106,6 +106,10 @@ def _do_make_formula_body(formula, default_value, assoc_value=None):
 
   formula_builder_text = textbuilder.Text(formula, assoc_value)
 
+  # Python also treats "\r" and "\r\n" as line breaks, but the line-based processing here and in
+  # textbuilder only knows "\n". Normalize them (the tokenizer does the same, even in strings).
+  formula_builder_text = _normalize_newlines(formula_builder_text)
+
   # Remove any common leading whitespace. In python, extra indent should not be an error, but
   # it is in Grist because we parse the formula body before it gets inserted into a function (i.e.
   # as if at module level). We have to do it using textbuilder as elsewhere (making changes to a
@@ -193,15 +197,48 @@ def _do_make_formula_body(formula, default_value, assoc_value=None):
   # possible in cases when a single token ('DOLLARfoo') is valid but an expression ('rec.foo') is
   # not, e.g. `foo($bar=1)` or `def $foo()`.
   # Also check for common mistakes: assigning to `rec` or its attributes (e.g. `$foo = 1`).
+  # The parsers accept some code that the compiler rejects (e.g. `nonlocal` without a binding,
+  # `return` in a class body, duplicate arguments). Since all formulas are compiled together as
+  # one module, check that too, so that such a formula only breaks its own column.
   with use_inferences(InferRecAssignment, InferRecAttrAssignment):
     try:
       astroid.parse(final_formula.get_text())
+      _check_compiles(final_formula)
     except (astroid.AstroidSyntaxError, SyntaxError) as e:
       error = getattr(e, "error", e)  # extract SyntaxError from AstroidSyntaxError
       return textbuilder.Text(_create_syntax_error_code(final_formula, formula, error))
 
   # We return the text-builder object whose .get_text() is the final formula.
   return final_formula
+
+
+_newline_re = re.compile(r'\r\n?')
+
+def _normalize_newlines(body):
+  """
+  Replaces "\r\n" and "\r" with "\n" in body (which should be a textbuilder.Builder).
+  """
+  patches = textbuilder.make_regexp_patches(body.get_text(), _newline_re, '\n')
+  return textbuilder.Replacer(body, patches) if patches else body
+
+
+def _check_compiles(body):
+  """
+  Raises SyntaxError if body (a textbuilder.Builder) doesn't compile as the body of a function.
+  The error's position is relative to the text of body.
+  """
+  indent = ' '
+  text = 'def _f(rec, table, value, user):\n' + _indent(body, indent).get_text()
+  try:
+    compile(text, code_filename, 'exec', dont_inherit=True)
+  except SyntaxError as e:
+    if e.lineno and e.lineno > 1:
+      e.lineno -= 1
+      if e.offset and e.offset > len(indent):
+        e.offset -= len(indent)
+    else:
+      e.lineno, e.offset = 1, 1
+    raise
 
 
 _whitespace_only_re = re.compile('^[ \t]+$', re.MULTILINE)
